@@ -496,7 +496,7 @@ func startChildServer(asLimit uint64) (*childSrv, error) {
 
 // startChildServerWith: pkiDir != "" adds a TLS listener using server.crt/server.key/ca.crt of that directory
 // (and a common-name rule when rule != "").
-func startChildServerWith(asLimit uint64, pkiDir, rule string) (*childSrv, error) {
+func startChildServerWith(asLimit uint64, pkiDir, rule string, extraEnv ...string) (*childSrv, error) {
 	for attempt := 0; attempt < 5; attempt++ {
 		cs := &childSrv{port: freePort(), stderr: &tailBuf{}, exited: make(chan struct{})}
 		cs.cmd = exec.Command(selfBinary())
@@ -504,6 +504,7 @@ func startChildServerWith(asLimit uint64, pkiDir, rule string) (*childSrv, error
 		if pkiDir != "" {
 			cs.tlsPort = freePort()
 			cs.cmd.Env = append(cs.cmd.Env, "VERIF_CHILD_PKI="+pkiDir, fmt.Sprintf("VERIF_CHILD_TLSPORT=%d", cs.tlsPort), "VERIF_CHILD_RULE="+rule)
+			cs.cmd.Env = append(cs.cmd.Env, extraEnv...)
 		}
 		in, err := cs.cmd.StdinPipe()
 		if err != nil {
